@@ -333,8 +333,28 @@ def m3_trace(em, seed):
         me["fit_moved_U"] = bool(moved)
     attempt("FitUsingArrayEqFitOfStats", fits)
 
+    def history():
+        # the SAME object, which has already enrolled, scored and transformed, is trained further; its scores
+        # must then be those of its CURRENT U, V, D (nothing kept from before may show)
+        mach.em_iterations = 1
+        mach.fit(ubm.transform(Xf), np.squeeze(np.asarray(yf)))
+        U2 = np.array(mach.U, dtype=float)
+        V2 = np.array(mach.V, dtype=float) if jfa else None
+        D2 = np.array(mach.D, dtype=float)
+        x2, ux2, sc2, scale2, xscale2 = oracle(mu, var, U2, V2, D2, zv, yv, N, Fs, T)
+        x = np.asarray(mach.estimate_x([ubm.acc_stats(a) for a in arrays]), dtype=float)
+        fact("XAfterFurtherTraining", x.shape == x2.shape and np.max(np.abs(x - x2)) <= 1e-8 * max(1.0, xscale2),
+             estimate_x=x.tolist(), solution=x2.tolist())
+        s2 = float(mach.score(model, [ubm.acc_stats(a) for a in arrays]))
+        fact("ScoreAfterFurtherTraining", abs(s2 - sc2) <= 1e-8 * max(1.0, scale2), score=s2, formula=sc2)
+        fresh = make_machine(em, ubm, jfa, U2, V2 if jfa else np.zeros((C * D, 1)), D2)
+        s3 = float(fresh.score(model, [ubm.acc_stats(a) for a in arrays]))
+        fact("ScoreEqualsFreshMachine", abs(s2 - s3) <= 1e-9 * max(1.0, scale2), with_history=s2, fresh=s3)
+    attempt("XAfterFurtherTraining", history)
+
     need = ["EnrollUsingArrayEqEnrollOfStats", "ScoreUsingArrayEqScoreOfStats", "ScoreIsCompensatedLinearScore",
-            "ListEqSum", "XSolvesSystem", "UxIsUTimesX", "FitUsingArrayEqFitOfStats"]
+            "ListEqSum", "XSolvesSystem", "UxIsUTimesX", "FitUsingArrayEqFitOfStats", "XAfterFurtherTraining",
+            "ScoreAfterFurtherTraining", "ScoreEqualsFreshMachine"]
     if not jfa:
         need.append("TransformEqEstimateUx")
     # an evaluation that raised is recorded as the failure of the first fact of its group and the rest of the group
